@@ -94,7 +94,7 @@ def edit(sm, text, overrides):
             if empty:
                 s = lines[start].strip()
                 body = s[1:-1].rstrip()[:-1].rstrip()
-                lines[start:start + 1] = ["<%s>" % body, "</%s>" % tname]
+                lines[start:start + 1] = ["<%s%s>" % (body, " " if body.endswith("/") else ""), "</%s>" % tname]
                 evs = parse_units([l.replace(MARK, "") for l in lines])
                 end = start + 2
             lo, hi = start + 1, end - 1
